@@ -173,3 +173,18 @@ def path(inst, src, dst, avoid=(), unwind=True):
             if s not in prev and s not in avoid:
                 prev[s] = b; q.append(s)
     return None
+
+
+def reachable_without_edges(inst, start, drop, avoid=(), unwind=False):
+    """blocks reachable from `start` when the edges in `drop` ({(src, dst)}) are removed and blocks in `avoid` are not entered"""
+    seen = set(); st = [start] if start not in avoid else []
+    while st:
+        b = st.pop()
+        if b in seen:
+            continue
+        seen.add(b)
+        for s in inst.succ(b, unwind):
+            if (b, s) in drop or s in avoid or s in seen:
+                continue
+            st.append(s)
+    return seen
